@@ -175,14 +175,17 @@ def skipFlush (A : SeqArith) (c : Conn) (used : Int) : Step :=
     let x := popPage A c.nextSeq p
     send A { c with nextSeq := x.2, pages := ps, npages := c.npages - 1 } (used - 1) x.1 []
 
+/-- the guard `if conn.first != nil && conn.first.seq == conn.nextSeq { panic("wtf") }` -/
+def wtfGuard (c : Conn) : Bool :=
+  match c.pages with
+  | p :: _ => decide (p.seq = c.nextSeq)
+  | [] => false
+
 /-- insertIntoConn for a payload at `seq` (already +1 for a SYN segment), followed by the
     `if len(a.ret) > 0 { sendToConnection }` of AssembleWithTimestamp. -/
 def insertIntoConn (A : SeqArith) (L : Lim) (c : Conn) (used : Int)
     (seq : Int) (bytes : Bytes) (fin : Bool) (ts : Int) : Res Step :=
-  let wtf : Bool := match c.pages with
-    | p :: _ => decide (p.seq = c.nextSeq)
-    | [] => false
-  if wtf then .panic .explicit
+  if wtfGuard c then .panic .explicit
   else
     let new := pagesFromTCP A seq bytes fin ts
     let pages := insertPages A seq new c.pages
@@ -205,11 +208,16 @@ structure Seg where
   bytes : Bytes
   deriving Repr, DecidableEq
 
+/-- sequence number of the first payload byte: `seq`, or `seq+1` for a retransmitted SYN (fix asm-2;
+    the first SYN of a connection is handled by its own branch). -/
+def payloadSeq (A : SeqArith) (nextSeq : Int) (s : Seg) : Int :=
+  if s.syn && decide (nextSeq ≠ invalidSeq) then A.add s.seq 1 else s.seq
+
 /-- AssembleWithTimestamp after the connection has been found and locked. -/
 def assembleConn (A : SeqArith) (L : Lim) (c0 : Conn) (used : Int) (s : Seg) : Res Step :=
   let c : Conn := if c0.lastSeen < s.ts then { c0 with lastSeen := s.ts } else c0
   let fin := s.rst || s.fin
-  let seq : Int := if s.syn && decide (c.nextSeq ≠ invalidSeq) then A.add s.seq 1 else s.seq
+  let seq : Int := payloadSeq A c.nextSeq s
   if c.nextSeq = invalidSeq then
     if s.syn then
       let r0 : Reasm := { bytes := s.bytes, skip := 0, start := true, fin := false, seen := s.ts }
